@@ -113,7 +113,8 @@ def _norm_functional(col, crate, norm, helpers, A, B):
         ra, rb = r[2][A], r[2][B]
         # sign of the reduced denominator on this path
         neg = None
-        for f in st.facts:
+        strict_seen = False
+        for f in sorted(st.facts, key=lambda f_: 0 if isinstance(f_[1], tuple) and f_[1] and f_[1][0] == "call" and str(f_[1][1]).endswith(("::lt", "::ge")) else 1):
             t = f[1]
             if isinstance(t, tuple) and t and t[0] == "discr" and isinstance(t[1], tuple) and t[1] and t[1][0] == "call" and str(t[1][1]).endswith("Ord::cmp"):
                 ca = args(t[1])
@@ -122,10 +123,14 @@ def _norm_functional(col, crate, norm, helpers, A, B):
                         neg = True
                     elif (f[0] == "ne" and f[2] in (-1, 255)) or (f[0] == "eq" and f[2] in (0, 1)):
                         neg = False
-            if isinstance(t, tuple) and t and t[0] == "call" and str(t[1]).endswith(("PartialOrd::lt", "PartialOrd::ge")) and f[0] == "eq":
+            if isinstance(t, tuple) and t and t[0] == "call" and str(t[1]).endswith(("PartialOrd::lt", "PartialOrd::ge", "PartialOrd::le", "PartialOrd::gt")) and f[0] == "eq":
                 ca = args(t)
                 if len(ca) == 2 and reduced(ca[0], b0) and isinstance(ca[1], tuple) and ca[1][0] == "assoc" and ca[1][2] == "ZERO":
-                    neg = bool(f[2]) if str(t[1]).endswith("::lt") else not bool(f[2])
+                    weak = str(t[1]).endswith(("::le", "::gt"))   # b <= 0 / b > 0: the same test, a denominator is never zero
+                    if weak and strict_seen:
+                        continue   # (a `debug_assert!(b > 0)` after the repair is not the branch)
+                    strict_seen = strict_seen or not weak
+                    neg = bool(f[2]) if str(t[1]).endswith(("::lt", "::le")) else not bool(f[2])
         key = "%s|%s" % (fk(norm), "negative-branch" if neg else "non-negative-branch")
         if neg is None:
             col.violation("N4", "%s|sign-test" % fk(norm), norm.loc(), "the normaliser does not branch on the sign of the reduced denominator")
@@ -265,6 +270,8 @@ def check(col, prog, tier, profile, fixture=None):
 
         gb = util.need_body(gc, "gcd")
         c11.rule_gcd(col, gb, c11.gcd_analyser(prog, gc), rid="N4")
+        # what gcd and norm stand on for the primitive integer types (ZERO, ONE, abs / into_abs of rlib_num_traits)
+        c11.rule_integer_prims(col, prog, rid="N6")
 
     # ---------------- N2 families
     for imp in _impls(crate, adt["key"]):
@@ -392,12 +399,17 @@ def check(col, prog, tier, profile, fixture=None):
         if not okdiv and len(g) == 1 and not da and _known_one(st, g[0].res) and {strip_mem(x) for x in g[0].args} == {("load", None, fa), ("load", None, fb)}:
             okdiv = True  # gcd == ONE on this path: dividing both fields by one is skipped
         neg = None
-        for f in st.facts:
+        strict_seen = False
+        for f in sorted(st.facts, key=lambda f_: 0 if isinstance(f_[1], tuple) and f_[1] and f_[1][0] == "call" and str(f_[1][1]).endswith(("::lt", "::ge")) else 1):
             t = f[1]
-            if isinstance(t, tuple) and t and t[0] == "call" and str(t[1]).endswith(("PartialOrd::lt", "PartialOrd::ge")) and f[0] == "eq":
+            if isinstance(t, tuple) and t and t[0] == "call" and str(t[1]).endswith(("PartialOrd::lt", "PartialOrd::ge", "PartialOrd::le", "PartialOrd::gt")) and f[0] == "eq":
                 args = [x for x in t[2] if not (isinstance(x, tuple) and x and x[0] == "mem")]
                 if args[0] == ("ref", fb) and args[1][0] == "ref" and args[1][1][0] == "constval" and args[1][1][1][0] == "assoc" and args[1][1][1][2] == "ZERO":
-                    neg = bool(f[2]) if str(t[1]).endswith("::lt") else not bool(f[2])
+                    weak = str(t[1]).endswith(("::le", "::gt"))   # b <= 0 / b > 0: the same test, a denominator is never zero
+                    if weak and strict_seen:
+                        continue   # (a `debug_assert!(b > 0)` after the repair is not the branch)
+                    strict_seen = strict_seen or not weak
+                    neg = bool(f[2]) if str(t[1]).endswith(("::lt", "::le")) else not bool(f[2])
         final_a, final_b = I.load(st.mem, fa), I.load(st.mem, fb)
         after_div = da[-1].state[1] if da else None
         key = "%s|%s" % (fk(norm), "negative-branch" if neg else "non-negative-branch")
